@@ -27,22 +27,22 @@ RE_CFG = re.compile(r'^<<"CFG", "(.*)">>$')
 MASK_ATTRS = ("path", "host", "ip", "hdr", "q", "body", "auth")
 
 
-def _consts(fams, ashape, presence_full):
-    return {"Fams": set(fams), "AShape": list(ashape)}, {"PresenceFull": bool(presence_full)}
+def _consts(fams, ashape, presence_full, lite=False):
+    return {"Fams": set(fams), "AShape": list(ashape)}, {"PresenceFull": bool(presence_full), "Lite": bool(lite)}
 
 
-def run_mc(ctx, name, fams, ashape=(0,), presence_full=False, timeout=900):
+def run_mc(ctx, name, fams, ashape=(0,), presence_full=False, timeout=900, lite=False):
     """Every row of the table as an initial state; design-level facts as invariants."""
-    consts, plain = _consts(fams, ashape, presence_full)
+    consts, plain = _consts(fams, ashape, presence_full, lite)
     r = vf.mc_run(ctx, "ing-" + name, "IngressMC", consts, plain, invariants=["RowFacts", "TableOK"], workers=4,
                   timeout=timeout, heap="6g")
     vf.mc_expect_ok(ctx, r, "IngressMC/" + name)
     return r
 
 
-def run_gen(ctx, name, fams, ashape=(0,), presence_full=False, timeout=900):
+def run_gen(ctx, name, fams, ashape=(0,), presence_full=False, timeout=900, lite=False):
     """TLC prints every configuration with its complete set of abstract requests (inputs only)."""
-    consts, plain = _consts(fams, ashape, presence_full)
+    consts, plain = _consts(fams, ashape, presence_full, lite)
     r = vf.mc_run(ctx, "ing-gen-" + name, "IngressMC", consts, plain, invariants=["EmitConfig"], spec="GenSpec", workers=4,
                   timeout=timeout, heap="6g")
     if r["error"] or not r["ok"] or r["violated"]:
@@ -61,14 +61,14 @@ def run_gen(ctx, name, fams, ashape=(0,), presence_full=False, timeout=900):
     return lines, rows
 
 
-def mc_and_gen(ctx, parts):
+def mc_and_gen(ctx, parts, lite=False):
     """parts: list of (name, fams, ashape, presence_full).  Runs MC and GEN of every part concurrently, checks that both
     enumerate the same number of rows, returns the merged table (configurations de-duplicated, canonical order)."""
     jobs = []
     with timed(ctx, "MC + GEN (%d TLC runs)" % (2 * len(parts))), cf.ThreadPoolExecutor(max_workers=max(2, min(8, vf.NCPU // 2))) as ex:
         for (name, fams, ashape, pf) in parts:
-            jobs.append((name, "mc", ex.submit(run_mc, ctx, name, fams, ashape, pf, 1500)))
-            jobs.append((name, "gen", ex.submit(run_gen, ctx, name, fams, ashape, pf, 1500)))
+            jobs.append((name, "mc", ex.submit(run_mc, ctx, name, fams, ashape, pf, 1500, lite)))
+            jobs.append((name, "gen", ex.submit(run_gen, ctx, name, fams, ashape, pf, 1500, lite)))
         res = {(n, k): f.result() for (n, k, f) in jobs}
     table = {}
     for (name, fams, ashape, pf) in parts:
